@@ -652,6 +652,13 @@ def oracle(inp):
     vb = ei.evaluate_at_point_list(xs, batch_size=b)
     if numpy.abs(vb - v).max() > tol_b:
       return fail("EI depends on the evaluation batch size", vb.tolist(), v.tolist())
+  # evaluation points on the integer lattice, handed over as an integer-typed array (grid / int parameters): the same values as for the
+  # float-typed array of the same points
+  xi = numpy.rint(xs).astype(int)
+  vi_f = ei.evaluate_at_point_list(xi.astype(float))
+  vi_i = numpy.asarray(ei.evaluate_at_point_list(xi), dtype=float)
+  if numpy.abs(vi_i - vi_f).max() > 1e-12 * (1 + float(numpy.abs(vi_f).max())):
+    return fail("EI at integer-typed evaluation points differs from EI at the same points given as floats", vi_i.tolist(), vi_f.tolist())
   aei = AugmentedExpectedImprovement(gp)
   nu = float(numpy.mean(gp.points_sampled_noise_variance))
   pen = 1 - numpy.sqrt(nu / (var + nu))
